@@ -25,7 +25,7 @@ ASSUMPTIONS = [
     "Every record is internally consistently wrapped (all lines but the last have the record's width), as faidx requires.",
 ]
 REQUIRED_CLASSES = ["multi-line", "last-line-full", "last-line-short", "single-line", "description", "marker-character-in-description", "genome-route-3+-intervals", "supplied-index-without-final-newline", "interval-crosses-break", "interval-ends-at-break",
-                    "interval-starts-at-break", "supplied-index", "library-index", "fast-path-label-order-differs", "no-final-newline", "index-written-by-genome-with-underscore-names"]
+                    "interval-starts-at-break", "supplied-index", "library-index", "fast-path-label-order-differs", "no-final-newline", "index-written-by-genome-with-underscore-names", "another-file-opened-at-the-same-path-first"]
 BOUNDS = {"quick": "exhaustive: 1 record L<=7 W<=8 and 2 records L<=4 W<=5, every interval; 450 sampled files; one 5.6 MB file (2 read chunks of create_index) and one 16 MB file (4 read chunks)",
           "thorough": "exhaustive: N<=2 L<=7 W<=8 and N=3 L<=4 W<=4; 2500 sampled files; one 5.2 MB file"}
 BUDGET_S = {"quick": 200, "thorough": 1500}
@@ -61,6 +61,8 @@ def classify(case):
     nontrivial = False
     if case["index"] == "supplied" and case.get("fai_no_final_newline"):
         cl.append("supplied-index-without-final-newline")
+    if case.get("prior_at_same_path") and case["index"] != "library":
+        cl.append("another-file-opened-at-the-same-path-first")
     if case["index"] == "library-via-genome" and any("_" in r[0] for r in case["records"]):
         cl.append("index-written-by-genome-with-underscore-names")
     if case.get("genome_route") and len(case.get("intervals") or []) >= 3:
@@ -102,6 +104,24 @@ def check(case, stats=None):
     out = []
     with tempfile.TemporaryDirectory(prefix="pbtc17") as d:
         path = os.path.join(d, "g.fa")
+        if case.get("prior_at_same_path"):
+            # another FASTA (other lengths, other line widths) with its index lives at this very path first and is opened and read; then the file
+            # and its index are replaced: what the first opening left behind in the process must not serve the second
+            prior = {"records": [[nm, "", (sq[::-1] + "ACGTA")[:len(sq) + 3], w_ + 1] for nm, _, sq, w_ in recs], "final_nl": True}
+            pdata, pmodel = layout(prior)
+            with open(path, "wb") as f:
+                f.write(pdata)
+            with open(path + ".fai", "w") as f:
+                f.write("".join(f"{m['name']}\t{m['rlen']}\t{m['offset']}\t{m['lenc']}\t{m['lenb']}\n" for m in pmodel))
+            try:
+                fa0 = bnp.open_indexed(path)
+                got0 = fa0[prior["records"][0][0]].to_string()
+                fa0._f_obj.close()
+            except Exception as e:
+                return [Failure(f"C17:raised:prior-file:{type(e).__name__}:{_where(e)}", {"error": repr(e)[:300]})]
+            if got0 != prior["records"][0][2]:
+                return [Failure("C17:whole-contig", {"record": prior["records"][0][0], "expected": prior["records"][0][2][:80], "actual": got0[:80], "in_prior_file": True})]
+            os.remove(path + ".fai")
         with open(path, "wb") as f:
             f.write(data)
         try:
@@ -223,7 +243,7 @@ def sampled_case(draw, Lmax, Wmax):
         b = draw(st.one_of(st.sampled_from([p for p in breaks if p > a] or [L]), st.integers(a + 1, L)))
         ivs.append([ri, a, b])
     case = {"records": recs, "intervals": ivs, "index": draw(st.sampled_from(["library", "supplied", "library-via-genome"])), "final_nl": draw(st.booleans()),
-            "genome_route": draw(st.booleans()), "fai_no_final_newline": draw(st.booleans())}
+            "genome_route": draw(st.booleans()), "fai_no_final_newline": draw(st.booleans()), "prior_at_same_path": draw(st.integers(0, 3)) == 0}
     if n > 1:
         case["label_order"] = draw(st.permutations(list(range(n))))
     return case
